@@ -624,18 +624,29 @@ func (w *world) buildTemplate(inc *incM, kind string) *tmpl {
 		return w.tDestroySessionInSeq(pick(w, "targetSession", all))
 	case "destroy_clientid_inseq":
 		return w.tDestroyClientIDInSeq(pick(w, "targetInc", w.allIncs))
+	case "putrootfh":
+		return tPutRootFH()
+	case "illegal_op":
+		// Operations that are executed first (possibly none), then an
+		// operation NFSv4.1 does not have, then possibly more operations.
+		base := w.buildTemplate(inc, pick(w, "illegalOpAfter", illegalOpBases))
+		return w.withIllegalOp(inc, base, pick(w, "illegalOp", illegalOpNames), pick(w, "trailing", trailingKinds))
 	}
 	panic("nfs41sim: unknown template " + kind)
 }
 
-var templateKinds = []string{"open", "open", "open_then", "open_fh", "open_previous", "open_deleg", "open_deny", "rename", "link", "close", "downgrade", "lock_new", "lock_existing", "lockt", "locku", "free_stateid", "test_stateid", "read", "write", "setattr", "remove", "lookup", "probe", "noop", "reclaim_complete"}
+var templateKinds = []string{"open", "open", "open_then", "open_fh", "open_previous", "open_deleg", "open_deny", "rename", "link", "close", "downgrade", "lock_new", "lock_existing", "lockt", "locku", "free_stateid", "test_stateid", "read", "write", "setattr", "remove", "lookup", "probe", "noop", "reclaim_complete", "illegal_op"}
+
+// illegalOpBases: what a COMPOUND executes before it reaches an operation
+// NFSv4.1 does not have.
+var illegalOpBases = []string{"noop", "noop", "noop", "putrootfh", "lookup", "open", "open", "open", "open_fh", "read", "write", "close", "lock_new", "probe"}
 
 // ---------------------------------------------------------------- actions
 
-func (w *world) seqAction(kind string, forcePark bool) {
+func (w *world) seqAction(kind string, forcePark bool) *call {
 	sess, slot := w.needSession()
 	if sess == nil {
-		return
+		return nil
 	}
 	t := w.buildTemplate(sess.inc, kind)
 	if !forcePark && w.pct("dropPutFH", 3) {
@@ -651,6 +662,72 @@ func (w *world) seqAction(kind string, forcePark bool) {
 	}
 	c := w.sendSeq(sess, slot, sess.slots[slot].lastSeq+1, "new", t, w.pct("cachethis", w.p.cachePct), plan, nil)
 	w.learnSessionFate(c)
+	return c
+}
+
+// illegalOpAction sends a COMPOUND with an operation NFSv4.1 does not
+// have and, most of the time, follows it up at once with what C19 is
+// about: a retransmission or a false retry when it has completed, a
+// duplicate or a false retry while it is parked. (The general replay, dup
+// and false_retry actions reach these compounds as well, but prefer
+// others.)
+func (w *world) illegalOpAction() {
+	c := w.seqAction("illegal_op", false)
+	if c == nil || c.mode != "exec" || c.t.illegal == nil || !c.sess.live() || c.sess.clientKnowsDead {
+		return
+	}
+	r := slotRef{c.sess, c.slot}
+	sl := c.sess.slots[c.slot]
+	switch {
+	case sl.busy == c:
+		switch pick(w, "illegalOpFollowUp", []string{"none", "dup", "dup", "false_retry"}) {
+		case "dup":
+			if !w.p.excludeDup {
+				w.dupOf(r)
+			}
+		case "false_retry":
+			if !w.p.excludeDup {
+				w.falseRetryOn(r, true, 100)
+			}
+		}
+	case sl.busy == nil && sl.last == c:
+		switch pick(w, "illegalOpFollowUp", []string{"none", "replay", "replay", "false_retry"}) {
+		case "replay":
+			w.replayOf(r)
+		case "false_retry":
+			w.falseRetryOn(r, false, 100)
+		}
+	}
+}
+
+func (w *world) replayOf(r slotRef) {
+	sl := r.s.slots[r.slot]
+	c := w.sendSeq(r.s, r.slot, sl.lastSeq, "replay", sl.last.t, sl.last.cache, nil, sl.last)
+	w.learnSessionFate(c)
+}
+
+func (w *world) dupOf(r slotRef) {
+	b := r.s.slots[r.slot].busy
+	w.sendSeq(r.s, r.slot, b.seq, "dup", b.t, b.cache, nil, b)
+}
+
+// falseRetryOn reuses the sequence ID of the slot's last (or, inflight,
+// current) request for another operation list: variantPct of the time one
+// that differs from the original's in a single place (see
+// tFalseRetryVariant), otherwise an unrelated template.
+func (w *world) falseRetryOn(r slotRef, inflight bool, variantPct int) {
+	sl := r.s.slots[r.slot]
+	orig, seq := sl.last, sl.lastSeq
+	if inflight {
+		orig, seq = sl.busy, sl.busy.seq
+	}
+	var t *tmpl
+	if w.pct("falseRetryVariantOfOriginal", variantPct) {
+		t = w.tFalseRetryVariant(r.s.inc, orig)
+	} else {
+		t = w.buildTemplate(r.s.inc, pick(w, "template", templateKinds))
+	}
+	w.sendSeq(r.s, r.slot, seq, "false_retry", t, w.pct("cachethis", w.p.cachePct), nil, nil)
 }
 
 func (w *world) learnSessionFate(c *call) {
@@ -880,10 +957,9 @@ func (w *world) doStepInner(op string) {
 			w.seqAction(pick(w, "template", []string{"open", "close", "lock_new"}), false)
 			return
 		}
-		r := pick(w, "slotRef", w.preferHot(cands))
-		sl := r.s.slots[r.slot]
-		c := w.sendSeq(r.s, r.slot, sl.lastSeq, "replay", sl.last.t, sl.last.cache, nil, sl.last)
-		w.learnSessionFate(c)
+		w.replayOf(pick(w, "slotRef", w.preferHot(cands)))
+	case "illegal_op":
+		w.illegalOpAction()
 	case "dup":
 		if w.p.excludeDup {
 			w.excl["duplicate of a request that is still being processed (open known finding)"]++
@@ -894,9 +970,7 @@ func (w *world) doStepInner(op string) {
 			w.seqAction(pick(w, "template", []string{"read", "write", "open"}), true)
 			return
 		}
-		r := pick(w, "slotRef", w.preferHot(cands))
-		b := r.s.slots[r.slot].busy
-		w.sendSeq(r.s, r.slot, b.seq, "dup", b.t, b.cache, nil, b)
+		w.dupOf(pick(w, "slotRef", w.preferHot(cands)))
 	case "false_retry":
 		inflightPct := 25
 		if w.p.strictInflightFalseRetry {
@@ -913,14 +987,7 @@ func (w *world) doStepInner(op string) {
 			w.seqAction(pick(w, "template", []string{"open", "close", "lock_new"}), false)
 			return
 		}
-		r := pick(w, "slotRef", w.preferHot(cands))
-		sl := r.s.slots[r.slot]
-		t := w.buildTemplate(r.s.inc, pick(w, "template", templateKinds))
-		seq := sl.lastSeq
-		if inflight {
-			seq = sl.busy.seq
-		}
-		w.sendSeq(r.s, r.slot, seq, "false_retry", t, w.pct("cachethis", w.p.cachePct), nil, nil)
+		w.falseRetryOn(pick(w, "slotRef", w.preferHot(cands)), inflight, 30)
 	case "misordered":
 		cands := w.slotsWhere(func(s *sessM, sl *slotM) bool { return !s.clientKnowsDead })
 		if len(cands) == 0 {
